@@ -57,6 +57,20 @@ NEEDS = {
  'C08_c': ('prorated take value written back into the asset\'s take dictionary (round 2)', 'Contract with a take period only partly covered and at least two set-ups on the same object'),
  'C10_c': ('StructuredAsset restores the wrapped assets\' start/end only if BOTH its own start and end are set (round 2)', 'structured asset with exactly one of start/end, wrapped asset with own window reaching beyond, same objects reused afterwards'),
  'C10_d': ('coarse restricted grid cached on the Timegrid keyed by (start, end, freq): stale discount factors (round 2)', 'two assets with the same own freq and window but different wacc set up on the same grid object'),
+ 'C11_c': ('zone-aware dates with UTC offset 0 are saved as naive ("if not obj.utcoffset()") (round 2)', 'zone-aware dates in UTC (or another offset-0 zone) inside an object, used with a grid in another zone'),
+ 'C11_d': ('ScaledAsset JSON drops its own start/end (merged with the OrderBook special case) (round 2)', 'ScaledAsset with its own start/end inside the grid and fix_costs != 0'),
+ 'C12_c': ('no_simult_in_out "out" rows use the rate cap_out instead of the per-step volume cap_out*dt (round 2)', 'no_simult_in_out with separate in/out variables and steps longer than one main time unit'),
+ 'C13_c': ('define_restr sets the take coefficient (=) instead of summing the weights of a variable\'s rows (+=) (round 2)', 'own coarser freq combined with min/max take on the same asset'),
+ 'C14_c': ('split interval points built with union(end) only: the piece before the first anchor is lost for anchored sizes (round 2)', 'anchored interval size (W, MS, ...) and a horizon starting off the anchor'),
+ 'C14_d': ('split interval grids built without main_time_unit (re-introduces the defect fixed in 210c346) (round 2)', 'split + main time unit != h + wacc / take / durations'),
+ 'C15_c': ('pinned values clipped to the bounds of the NEW set-up (round 2)', 'bounds that come from the data set (capacity given as price key) and a new data set that tightens them inside the fixed window'),
+ 'C16_c': ('ScaledAsset box bounds of the dispatch variables drop "/ norm_scale" (round 2)', 'norm_scale < 1 and a scale above max_scale*norm_scale with a binding flow capacity'),
+ 'C16_d': ('ScaledAsset fix-cost duration from restricted.end - restricted.start (unclipped asset window) (round 2)', 'ScaledAsset window overhanging the horizon or not aligned with the steps'),
+ 'C17_c': ('make_slp repeats only rows whose future coefficients do not SUM to zero (round 2)', 'a restriction whose future coefficients cancel (node with one feeding asset and an outgoing transport)'),
+ 'C17_d': ('ScaledAsset: set_timegrid moved below the costs_only shortcut (cost samples use the base asset\'s window) (round 2)', 'ScaledAsset with fix_costs != 0 whose window differs from its base asset\'s, robust optimisation'),
+ 'C18_c': ('StructuredAsset: result of cType.replace discarded (re-introduces the defect fixed in b24b651) (round 2)', 'LP portfolio with a structured asset that has an internal node; nodal prices read'),
+ 'C19_c': ('prices_to_grid recognises gridded data only if the index is a RangeIndex (round 2)', 'price DataFrame / Series with integer labels that are not a RangeIndex'),
+ 'C20_c': ('orders whose start lies before the horizon start are skipped (round 2)', 'an order that starts before the grid start and ends inside it'),
  'C20_b': ('OrderBook skips set_timegrid when it already holds this grid object (reads another asset\'s restricted grid / wacc)', 'portfolio set up twice on the same Timegrid object with a windowed / other-wacc asset handled just before the book'),
 }
 rows = []
